@@ -94,6 +94,9 @@ def check(ctx):
     ctx.rule("R2", "built-in kernels write back positions with exactly their own position "
                    "keys (derived from self.position(model_state)); Gibbs factories return "
                    "the key they registered.")
+    ctx.rule("R4", "the Liesel model interface's update_state (the only way kernels write "
+                   "back) overwrites the private state, assigns the position and runs a "
+                   "FULL update, so every derived quantity in the state is recomputed.")
     ctx.rule("R3", "KernelSequence.transition runs the kernels in list order, each starting "
                    "from the state left by its predecessor, with matching key/state indices.")
     ctx.trust(LIB_FACTS["blackjax"], LIB_FACTS["cond"])
@@ -187,8 +190,41 @@ def check(ctx):
         ctx.ob("C09.R2", tr, "GibbsKernel writes the transition function's draw back with "
                              "update_state on the input state", ok, detail=short(ms or ()))
 
+    # ------------------------------------------------------------------ R4
+    from .c03 import liesel_update_state_obligations
+    liesel_update_state_obligations(
+        ctx, repo.cls("liesel.goose.interface.LieselInterface"), rule="C09.R4")
+
     # ------------------------------------------------------------------ R3
     ks = repo.cls("liesel.goose.kernel_sequence.KernelSequence")
+    kinit = method(repo, ks, "__init__", own=True)
+    rki = evaluate(repo, kinit)
+    stored = [val for loc, val, _, _ in rki.stores if loc == ("a", SELF, "_kernels")]
+    kp = n("kernels")
+    ok_order = len(stored) == 1 and stored[0] in (
+        kp, ("call", ("n", "list"), (kp,), ()), ("call", ("n", "tuple"), (kp,), ()))
+    if len(stored) == 1 and stored[0][0] == "comp" and stored[0][1] == "list":
+        g_ = stored[0][3]
+        ok_order = len(g_) == 1 and g_[0][1] == kp and not g_[0][2] and stored[0][2] == (
+            "iter", kp)
+    ctx.ob("C09.R3", kinit, "the kernel sequence keeps the kernels in the order given "
+                            "(list(kernels)); no sorting or re-grouping", ok_order,
+           detail=str([short(v) for v in stored]),
+           stmt="kernel list " + str([pretty(v)[:100] for v in stored]))
+    eb = repo.cls("liesel.goose.builder.EngineBuilder")
+    rbuild = evaluate(repo, method(repo, eb, "build")).ret()
+    ksa = kw(rbuild, "kernel_sequence") if rbuild is not None and rbuild[0] == "call" else None
+    ok_b = (ksa is not None and is_call(ksa, "liesel.goose.kernel_sequence.KernelSequence")
+            and ksa[2] == (("a", SELF, "kernels"),))
+    kprop = evaluate(repo, method(repo, eb, "kernels", "getter")).ret()
+    ok_p = kprop == ("call", ("n", "tuple"), (("a", SELF, "_kernels"),), ())
+    radd = evaluate(repo, method(repo, eb, "add_kernel"))
+    ok_a = any(t == ("call", ("a", ("a", SELF, "_kernels"), "append"), (n("kernel"),), ())
+               for t, _, _ in radd.calls)
+    ctx.ob("C09.R3", method(repo, eb, "build"), "the builder hands the kernels to the "
+                                                "sequence in add_kernel order", ok_b and ok_p
+           and ok_a, detail=f"build={ok_b} property={ok_p} add_kernel={ok_a}",
+           stmt="builder kernel order")
     tr = method(repo, ks, "transition", own=True)
     res = evaluate(repo, tr)
     lp = res.loops[0] if len(res.loops) == 1 else None
